@@ -65,6 +65,7 @@ TXT = {
     "spin2": r"{V^{ij}_{ab}} {t1^{ab}_{ij}} + {f^{i}_{a}} {t2^{a}_{i}} - \frac{{V^{ia}_{jb}} {t2^{b}_{i}} {t2cc^{a}_{j}}}{2}",  # noqa: E501
     "code3": r"{V^{kl}_{cd}} {t1^{ac}_{ik}} {t1^{bd}_{jl}} - \frac{{V^{kl}_{ij}} {t1^{ab}_{kl}}}{2} + {f^{a}_{c}} {t1^{bc}_{ij}}",  # noqa: E501
     "pairs": r"{Y^{a}_{i}} {V^{ja}_{ce}} {X^{b}_{j}} {V^{ib}_{cd}} - \frac{{Y^{a}_{i}} {V^{ja}_{cd}} {X^{b}_{j}} {V^{ib}_{ce}}}{2}",  # noqa: E501
+    "retarget": r"{f^{j}_{k}} {Y^{a}_{j}} {X^{a}_{k}} + {f^{k}_{j}} {Y^{a}_{k}} {X^{a}_{j}} + {V^{jk}_{bc}} {t1^{bc}_{jk}} {d^{a}_{a}}",  # noqa: E501
     "wick3": r"{a^\dagger_{i}} {a_{a}} {f^{p}_{q}} {a^\dagger_{p}} {a_{q}} {t1^{bc}_{jk}} {a^\dagger_{b}} {a^\dagger_{c}} {a_{k}} {a_{j}}",  # noqa: E501
 }
 
@@ -254,6 +255,20 @@ for _kind, _nc, _na in (("ip", 0, 1), ("ea", 1, 0)):
             def _(w, o=o): return w.call(w.prop("mp", kind), "trans_moment", adc_order=o,
                                          n_create=nc, n_annihilate=na)
     _mk(_kind, _nc, _na)
+
+
+@tmpl("prop.mp.pp.trans_moment(1,subtract_gs=False)", "mp.pp", "", cost=2)
+def _(w): return w.call(w.prop("mp", "pp"), "trans_moment", adc_order=1, n_create=1,
+                        n_annihilate=1, subtract_gs=False)
+
+
+@tmpl("prop.mp.pp.expectation_value(1,1,subtract_gs=False)", "mp.pp", "", cost=2)
+def _(w): return w.call(w.prop("mp", "pp"), "expectation_value", adc_order=1, n_particles=1,
+                        subtract_gs=False)
+
+
+@tmpl("m.mp.pp.isr_matrix_block(1,ph,ph,ia,jb,subtract_gs=False)", "mp.pp", "iajb", cost=2)
+def _(w): return w.call(w.m("mp", "pp"), "isr_matrix_block", 1, "ph,ph", "ia,jb", False)
 
 
 @tmpl("prop.mp.pp-ip.expectation_value(1,1)", "mp.pp", "", cost=2)
@@ -563,6 +578,42 @@ def _(w):
     from adcgen import import_from_sympy_latex
     e = imp(w, "contr2", targets="ac")
     return import_from_sympy_latex(str(e))
+
+
+# ----------------------------------------------------------------------------- long-lived Expr objects
+def shared(w, key, real=False):
+    """an Expr object the user keeps around for the whole session (imported once per
+    session); requests only ever change its provided target indices and inspect it"""
+    k = ("expr", key, real)
+    if k not in w.exprs:
+        w.exprs[k] = imp(w, key, real=real)
+    return w.exprs[k]
+
+
+for _tg in ("", "a", "jk", "ajk", None):
+    def _mk(tg):
+        label = "einstein" if tg is None else (tg or "none")
+
+        @tmpl(f"expr.shared.simplify(retarget,targets={label})", "expr", tg)
+        def _(w):
+            from adcgen import simplify
+            e = shared(w, "retarget")
+            e.set_target_idx(tg)
+            return simplify(e)
+
+        @tmpl(f"expr.shared.symmetry(retarget,targets={label})", "expr", None)
+        def _(w):
+            e = shared(w, "retarget")
+            e.set_target_idx(tg)
+            return [[(str(k), v) for k, v in t.symmetry(only_contracted=True).items()]
+                    for t in e.terms]
+
+        @tmpl(f"expr.shared.substitute_contracted(retarget,targets={label})", "expr", tg)
+        def _(w):
+            e = shared(w, "retarget")
+            e.set_target_idx(tg)
+            return e.copy().substitute_contracted()
+    _mk(_tg)
 
 
 # ----------------------------------------------------------------------------- more expression level
